@@ -8,7 +8,7 @@ inversion function that inverts the non-zero elements.  `threads` is the rayon t
 serial build is `threads = 1`.
   §1  batch inversion = element-wise inverse with 0 ↦ 0, every list, every thread count
   §2  `batch_iter_mut!` chunking partitions [0, len) into consecutive `batch_size` pieces
-  §3  power series (with offset) = [s·bⁱ]; n = 0 panics (defect D4 of DESIGN.md §5)
+  §3  power series (with offset) = [s·bⁱ] for every n, n = 0 included (D4 of DESIGN.md §5, fixed)
   §4  add_in_place / mul_acc element-wise, length assertion
   §5  group / flatten / transpose preserve element order
 -/
@@ -42,7 +42,7 @@ theorem serial_batch_inversion_pointwise (hinv : ∀ x : K, x ≠ 0 → x * inv 
 theorem batch_inversion_elementwise (hinv : ∀ x : K, x ≠ 0 → x * inv x = 1) (threads : Nat)
     (vs : List K) :
     batchInversion (ringOps K inv) threads vs = some (vs.map (fun v => v⁻¹)) := by
-  obtain ⟨cs, bs, hplan, _, _, _, hcov⟩ := chunkPlan_partition vs.length threads 1024 (by decide)
+  obtain ⟨cs, bs, hplan, _, _, _, _, hcov⟩ := chunkPlan_partition vs.length threads 1024 (by decide)
   unfold batchInversion
   rw [hplan]
   apply batchApply_of_pieces
@@ -58,12 +58,12 @@ end inversion
 /-- For every length, thread count and minimum batch size ≥ 1 the macro does not panic and hands
 out chunks `cs` such that: chunk `i` starts at `i * bs` and has `min bs (len − i·bs)` elements
 (`bs` elements each, the last one possibly shorter); no chunk is empty unless the slice is; and
-cutting any slice of that length along `cs` and concatenating gives the slice back (the chunks
-are consecutive, disjoint and cover `[0, len)`). -/
+every chunk lies inside the slice; and cutting any slice of that length along `cs` and
+concatenating gives the slice back (the chunks are consecutive, disjoint and cover `[0, len)`). -/
 theorem chunk_plan_partitions (len threads minBatch : Nat) (hmin : 0 < minBatch) :
     ∃ cs bs, chunkPlan len threads minBatch = some cs ∧ cs ≠ [] ∧
       (∀ i (h : i < cs.length), cs[i] = (i * bs, min bs (len - i * bs))) ∧
-      (0 < len → ∀ c ∈ cs, 0 < c.2) ∧
+      (0 < len → ∀ c ∈ cs, 0 < c.2) ∧ (∀ c ∈ cs, c.1 + c.2 ≤ len) ∧
       (∀ {α : Type} (xs : List α), xs.length = len →
         (cs.map (fun c => (xs.drop c.1).take c.2)).flatten = xs) :=
   chunkPlan_partition len threads minBatch hmin
@@ -71,7 +71,7 @@ theorem chunk_plan_partitions (len threads minBatch : Nat) (hmin : 0 < minBatch)
 /-- the lengths of the chunks add up to the length of the slice -/
 theorem chunk_plan_lengths_sum (len threads minBatch : Nat) (hmin : 0 < minBatch) :
     ∃ cs, chunkPlan len threads minBatch = some cs ∧ (cs.map (·.2)).sum = len := by
-  obtain ⟨cs, bs, hplan, _, hidx, _, hcov⟩ := chunkPlan_partition len threads minBatch hmin
+  obtain ⟨cs, bs, hplan, _, hidx, _, _, hcov⟩ := chunkPlan_partition len threads minBatch hmin
   refine ⟨cs, hplan, ?_⟩
   have h := congrArg List.length (hcov (List.replicate len ()) (by simp))
   rw [List.length_flatten, List.map_map] at h
@@ -83,6 +83,7 @@ theorem chunk_plan_lengths_sum (len threads minBatch : Nat) (hmin : 0 < minBatch
   obtain ⟨i, hi, rfl⟩ := List.getElem_of_mem hc
   rw [hidx i hi]
   simp only [Function.comp_def, List.length_take, List.length_drop, List.length_replicate]
+  omega
 
 /-- the only panic of the macro: minimum batch size 0 with a computed batch size 0
 (`par_chunks_mut(0)`); the two macro forms used in the crates pass 1 resp. 1024 -/
@@ -98,90 +99,66 @@ theorem batch_iter_thread_independent {F : Type} (threads minBatch : Nat) (hmin 
     (hc : ∀ off len, 0 < len ∨ whole = [] → off + len ≤ whole.length →
       c off len = some ((whole.drop off).take len)) :
     ∃ cs, chunkPlan whole.length threads minBatch = some cs ∧ batchApply cs c = some whole := by
-  obtain ⟨cs, bs, hplan, _, hidx, hpos, hcov⟩ :=
+  obtain ⟨cs, bs, hplan, _, _, hpos, hin, hcov⟩ :=
     chunkPlan_partition whole.length threads minBatch hmin
   refine ⟨cs, hplan, batchApply_of_pieces cs c whole ?_ (hcov whole rfl)⟩
   intro p hp
-  obtain ⟨i, hi, rfl⟩ := List.getElem_of_mem hp
-  have hlen : 0 < whole.length → 0 < (cs[i]).2 := fun h => hpos h _ (List.getElem_mem hi)
-  rw [hidx i hi] at hlen ⊢
-  simp only at hlen ⊢
-  apply hc
-  · rcases Nat.eq_zero_or_pos whole.length with h | h
-    · right; exact List.length_eq_zero_iff.mp h
-    · left; exact hlen h
-  · rcases Nat.eq_zero_or_pos whole.length with h | h
-    · rw [h]; simp
-    · have := hlen h
-      omega
+  apply hc _ _ _ (hin p hp)
+  rcases Nat.eq_zero_or_pos whole.length with h | h
+  · right; exact List.length_eq_zero_iff.mp h
+  · left; exact hpos h p hp
 
 /-! ## §3 power series -/
 
 section power
 variable {R : Type} [CommRing R] [DecidableEq R] (inv : R → R)
 
-/-- `fill_power_series` on a non-empty slice: `[start·baseⁱ | i < len]` -/
-theorem fill_power_series_powers (b s : R) (len : Nat) (h : 0 < len) :
+/-- `fill_power_series` on a slice of ANY length, the empty one included: `[start·baseⁱ | i < len]` -/
+theorem fill_power_series_powers (b s : R) (len : Nat) :
     fillPowerSeries (ringOps R inv) len b s = some ((List.range len).map (fun i => s * b ^ i)) :=
-  fillPowerSeries_eq inv b s len h
+  fillPowerSeries_eq inv b s len
 
-/-- on an empty slice `result[0] = start` is out of bounds (for every field) -/
-theorem fill_power_series_empty_panics {F : Type} (ops : FieldOps F) (b s : F) :
-    fillPowerSeries ops 0 b s = none := rfl
+/-- on an empty slice nothing is written and nothing is indexed (for every field) -/
+theorem fill_power_series_empty {F : Type} (ops : FieldOps F) (b s : F) :
+    fillPowerSeries ops 0 b s = some [] := rfl
 
-/-- `get_power_series_with_offset(b, s, n)` for n ≥ 1 and EVERY thread count: `[s·bⁱ | i < n]`
-(`exp` is the field's exponentiation, a power by C10) -/
+/-- `get_power_series_with_offset(b, s, n)` for EVERY `n` (0 included: the empty vector) and EVERY
+thread count: `[s·bⁱ | i < n]` (`exp` is the field's exponentiation, a power by C10) -/
 theorem get_power_series_with_offset_powers (exp : R → Nat → R) (hexp : ∀ x k, exp x k = x ^ k)
-    (threads : Nat) (b s : R) (n : Nat) (hn : 0 < n) :
+    (threads : Nat) (b s : R) (n : Nat) :
     getPowerSeriesWithOffset (ringOps R inv) exp threads b s n
       = some ((List.range n).map (fun i => s * b ^ i)) := by
-  obtain ⟨cs, bs, hplan, _, hidx, hpos, hcov⟩ := chunkPlan_partition n threads 1024 (by decide)
+  obtain ⟨cs, bs, hplan, _, _, _, hin, hcov⟩ := chunkPlan_partition n threads 1024 (by decide)
   unfold getPowerSeriesWithOffset
   rw [hplan]
   apply batchApply_of_pieces
   · intro p hp
-    obtain ⟨i, hi, rfl⟩ := List.getElem_of_mem hp
-    have hl : 0 < (cs[i]).2 := hpos hn _ (List.getElem_mem hi)
-    rw [hidx i hi] at hl ⊢
-    simp only at hl ⊢
-    rw [fillPowerSeries_eq inv _ _ _ hl, drop_take_range_map _ n _ _ (by omega), hexp, ringOps_mul]
+    rw [fillPowerSeries_eq inv, drop_take_range_map _ n _ _ (hin p hp), hexp, ringOps_mul]
     congr 1
     apply List.map_congr_left
     intro j _
     rw [pow_add, mul_assoc]
   · exact hcov _ (by simp)
 
-/-- `get_power_series(b, n)` for n ≥ 1 and every thread count: `[bⁱ | i < n]` -/
+/-- `get_power_series(b, n)` for every `n` and every thread count: `[bⁱ | i < n]` -/
 theorem get_power_series_powers (exp : R → Nat → R) (hexp : ∀ x k, exp x k = x ^ k)
-    (threads : Nat) (b : R) (n : Nat) (hn : 0 < n) :
+    (threads : Nat) (b : R) (n : Nat) :
     getPowerSeries (ringOps R inv) exp threads b n = some ((List.range n).map (fun i => b ^ i)) := by
-  have h := get_power_series_with_offset_powers inv exp hexp threads b 1 n hn
+  have h := get_power_series_with_offset_powers inv exp hexp threads b 1 n
   simp only [one_mul] at h
   rw [← h]
   unfold getPowerSeries getPowerSeriesWithOffset
   simp only [ringOps_mul, one_mul]
 
+/-- in particular `n = 0` returns the empty vector (this panicked before the fix 766a8d5) -/
+theorem get_power_series_zero (exp : R → Nat → R) (hexp : ∀ x k, exp x k = x ^ k)
+    (threads : Nat) (b s : R) :
+    getPowerSeries (ringOps R inv) exp threads b 0 = some [] ∧
+    getPowerSeriesWithOffset (ringOps R inv) exp threads b s 0 = some [] :=
+  ⟨get_power_series_powers inv exp hexp threads b 0,
+   get_power_series_with_offset_powers inv exp hexp threads b s 0⟩
+
 end power
-
-/-- DEFECT (DESIGN.md §5 D4): `get_power_series(b, 0)` does not return the empty vector but
-panics (`result[0]` on an empty slice) – for every field, base and thread count -/
-theorem get_power_series_zero_panics {F : Type} (ops : FieldOps F) (exp : F → Nat → F)
-    (threads : Nat) (b : F) : getPowerSeries ops exp threads b 0 = none := by
-  have h : chunkPlan 0 threads 1024 = some [(0, 0)] := by
-    unfold chunkPlan
-    simp
-  unfold getPowerSeries
-  rw [h]
-  rfl
-
-theorem get_power_series_with_offset_zero_panics {F : Type} (ops : FieldOps F) (exp : F → Nat → F)
-    (threads : Nat) (b s : F) : getPowerSeriesWithOffset ops exp threads b s 0 = none := by
-  have h : chunkPlan 0 threads 1024 = some [(0, 0)] := by
-    unfold chunkPlan
-    simp
-  unfold getPowerSeriesWithOffset
-  rw [h]
-  rfl
 
 /-! ## §4 element-wise updates -/
 
@@ -242,7 +219,7 @@ theorem group_slice_elements_preserves_order {α : Type} (n : Nat) (xs : List α
   · unfold flattenElements
     rw [flatten_chunksOf, hmul, List.take_length]
   · intro i j hi hj
-    simp [chunksOf, hi, List.getElem?_take, hj]
+    simp [chunksOf, hi, hj]
 
 /-- the documented panics of `group_slice_elements` (and the division by zero for `N = 0`) -/
 theorem group_slice_elements_panics_iff {α : Type} (n : Nat) (xs : List α) :
@@ -340,7 +317,9 @@ example : chunkPlan 4099 3 1024 = some [(0, 1024), (1024, 1024), (2048, 1024), (
 example : chunkPlan 4095 4 1024 = some [(0, 4095)] := by decide +kernel
 example : chunkPlan 3 8 0 = none := by decide +kernel
 example : getPowerSeries (ringOps ℤ id) (fun x k => x ^ k) 1 3 4 = some [1, 3, 9, 27] := by
-  rw [get_power_series_powers _ _ (fun _ _ => rfl) _ _ _ (by decide)]; decide
+  rw [get_power_series_powers _ _ (fun _ _ => rfl)]; decide
+example : getPowerSeries (ringOps ℤ id) (fun x k => x ^ k) 4 3 0 = some [] :=
+  (get_power_series_zero _ _ (fun _ _ => rfl) 4 3 1).1
 example : groupSliceElements 2 [0, 1, 2, 3, 4, 5] = some [[0, 1], [2, 3], [4, 5]] := by decide
 example : transposeSlice 2 [0, 1, 2, 3, 4, 5, 6, 7] = some [[0, 4], [1, 5], [2, 6], [3, 7]] := by decide
 example : transposeSlice 3 [0, 1, 2, 3] = (none : Option (List (List Nat))) := by decide
